@@ -69,6 +69,10 @@ def inputs(run: Run, cfg: dict) -> list[dict]:
         add(c["src"], "indent.tla")
         if cases and cases[-1]["src"] == c["src"]:
             cases[-1]["predicted_layout"] = c
+    for c in gens.fmode(run):
+        add(c["src"], "fmode.tla")
+        if cases and cases[-1]["src"] == c["src"]:
+            cases[-1]["predicted_fmode"] = c
     from . import c10
 
     for c in c10.generate(run, run.tier)[:: (3 if run.tier == "quick" else 1)]:
@@ -115,6 +119,15 @@ def check(run: Run) -> None:
     if d:
         run.drift["Indent.tla prediction vs real token stream"] = len(d)
         run.extra["indent_drift_examples"] = d[:5]
+    # refinement: the f-string mode machine (FMode.tla) predicts the token stream of every single-line f-string input
+    from .. import fmode
+
+    fx = [(c["predicted_fmode"], r) for c, r in zip(cases, res) if "predicted_fmode" in c]
+    d = fmode.drift([a for a, _ in fx], [b for _, b in fx])
+    run.extra["fmode_inputs_predicted"] = len(fx)
+    if d:
+        run.drift["FMode.tla prediction vs real token stream"] = len(d)
+        run.extra["fmode_drift_examples"] = d[:5]
     verdicts = validate_traces(run, "TokStream", traces, name="tokstream")
     for i, (clause, k) in sorted(verdicts.items()):
         if clause != "ok":
